@@ -17,7 +17,7 @@ def register(PROPS):
                  'transition of 6 years per zone real TZID events (text -> parser -> stream) with DAILY / WEEKLY / MONTHLY rules are read back and '
                  'each occurrence compared with zoneinfo, plus a MONTHLY x12 event per chosen year.  All cyclic access orders (start x stride, 3 '
                  'rounds) and hot-zone orders over 15/16/17/18 zones with pairwise distinct offsets, and one process using 63/64/65 distinct TZIDs '
-                 '(library calls and parsed events), must still convert correctly.  Zone table overflow: for every installed zone T for which nine other installed zones exist whose first hash probe takes T\'s nine probe slots of the bottom region (184 here), a calendar with events in those nine zones followed by a winter and a summer daily event in T must give T\'s events the occurrences they have alone (each reading in a freshly forked image).  The cache-order cases run with 24 file descriptors (a zone that falls out of the cache is opened again; descriptors must not leak).  Events with two RRULEs in a zone (c03_tworules) must be the union of the single-rule events.  Several occurrences per day (mode byhour): for every zone of the tier and every year of the bound in which the zone is at offset 0 on January 1st, the events DTSTART;TZID=zone:<year>0101T<h1>0000 RRULE:FREQ=DAILY;BYHOUR=h1,h2 (all 21 pairs of the hours 0..6 and 0/12, 3/13, 12/13, 1/23, 22/23, 0/23) are read back through the whole year (730 or 732 occurrences each): every wall-clock time that exists once must occur, in order, at the instant zoneinfo gives for it -- also for the second time of a day on whose first time another offset was in force.  A zone whose file cannot be opened at one moment must work once it can (mode transient): for each of 25 zones B off UTC, with another zone in use before or none, RLIMIT_NOFILE is lowered to 0 around the FIRST use of B (echs_instant_loc / echs_instant_utc / echs_tzob_offs / a parsed TZID event; open(2) answers EMFILE, the result is not judged) and restored; then B is used nine times (3 instants x loc / utc / offs, resp. three parsed events) and the zone used before once more: every result must be zoneinfo\'s, each case in a freshly forked image.  A library call that does not return within its CPU budget is a hang.',
+                 '(library calls and parsed events), must still convert correctly.  Zone table overflow: for every installed zone T for which nine other installed zones exist whose first hash probe takes T\'s nine probe slots of the bottom region (184 here), a calendar with events in those nine zones followed by a winter and a summer daily event in T must give T\'s events the occurrences they have alone (each reading in a freshly forked image).  The cache-order cases run with 24 file descriptors (a zone that falls out of the cache is opened again; descriptors must not leak).  Events with two RRULEs in a zone (c03_tworules) must be the union of the single-rule events.  Several occurrences per day (mode byhour): for every zone of the tier and every year of the bound in which the zone is at offset 0 on January 1st, the events DTSTART;TZID=zone:<year>0101T<h1>0000 RRULE:FREQ=DAILY;BYHOUR=h1,h2 (all 21 pairs of the hours 0..6 and 0/12, 3/13, 12/13, 1/23, 22/23, 0/23) are read back through the whole year (730 or 732 occurrences each): every wall-clock time that exists once must occur, in order, at the instant zoneinfo gives for it -- also for the second time of a day on whose first time another offset was in force.  A zone whose file cannot be opened at one moment must work once it can (mode transient): for each of 25 zones B off UTC, with another zone in use before or none, RLIMIT_NOFILE is lowered to 0 around the FIRST use of B (echs_instant_loc / echs_instant_utc / echs_tzob_offs / a parsed TZID event; open(2) answers EMFILE, the result is not judged) and restored; then B is used nine times (3 instants x loc / utc / offs, resp. three parsed events) and the zone used before once more: every result must be zoneinfo\'s, each case in a freshly forked image.  Written out and read again (mode rewrite): each of the TZID events of mode rule whose DTSTART exists once is written with the project\'s own writer (echs_task_icalify, in the form echsq sends to the daemon and in the form of the daemon\'s checkpoint file; `echse merge\' uses the same writer), the text is parsed again and the re-read stream must give the instants zoneinfo assigns to the stated wall-clock times, as the directly read event does (an event that is already off when read directly is mode rule\'s finding and left out).  A library call that does not return within its CPU budget is a hang.',
         'note': 'Instants from 2038-01-01 on, leap-second ("right/") files and the posix/ copy of the tree are outside the check. '
                 'Gap and fold wall-clock times are classified by the reference and never judged one-way. '
                 'RRULE expansion itself is C01; here only DTSTART + k days / 7k days / k months with an existing day of month are used, and in mode byhour '
@@ -27,15 +27,15 @@ def register(PROPS):
                 'every compared library call resp. every event read back resp. every cache access; non-trivial = probes bound to a transition '
                 '(the 9 seconds around it), counted once per zone in the isolated pass + events whose expected occurrences span a change of '
                 'UTC offset + cache sequences that force a slot replacement (>= 16 zones) or an MFU swap (hot zone) + the 63/64/65-TZID cases; byhour: a case is a (zone, year) with offset 0 on '
-                'January 1st, evaluations count expected occurrences, non-trivial = the UTC offset changes inside the year; transient: a case is (zone B, zone in use before or none, operation during the shortage), evaluations count the compared calls / events after the shortage, every case is non-trivial',
+                'January 1st, evaluations count expected occurrences, non-trivial = the UTC offset changes inside the year; transient: a case is (zone B, zone in use before or none, operation during the shortage), evaluations count the compared calls / events after the shortage, every case is non-trivial; rewrite: a case is a zone, evaluations count re-read events (two written forms per event), non-trivial = the zone is off UTC at DTSTART or the offset changes inside the event',
         'bound': {
             'quick': '45 named zones (both hemispheres, 30- and 45-minute offsets, January/February transitions, 0, 1 and > 200 transitions, '
                      'date-line jumps, negative DST): all their transitions 1902-2037; events around the transitions of 6 years per zone; '
                      'all cache sequences; byhour: the same zones x every year 1972-2036 x 27 hour pairs (560 zone-years at offset 0 on January 1st, '
-                     '238 of them with offset changes); transient: 25 zones x {no zone, one zone in use before} x 4 first operations = 200 cases',
+                     '238 of them with offset changes); transient: 25 zones x {no zone, one zone in use before} x 4 first operations = 200 cases; rewrite: the events of mode rule in the 45 zones (7322 with a DTSTART that exists once and a right direct stream) x 2 written forms, again under ASan',
             'thorough': 'all 447 distinct TZif files of the installed tree outside right/ and posix/: all their transitions 1902-2037 '
                         '(about 27k), events around the transitions of 6 years per zone; all cache sequences; byhour: all these zones x every year 1903-2036 x 27 hour pairs '
-                        '(2384 zone-years, 746 with offset changes); transient as in quick',
+                        '(2384 zone-years, 746 with offset changes); transient as in quick; rewrite: the events of mode rule in all 447 zones (63 761 judged) x 2 written forms',
         },
         'drivers': [
             D('c07_tz', ['mode=conv', 'tier=quick'] + _T, ['mode=conv', 'tier=thorough', '--deadline', '540'] + _T, label='conv'),
@@ -53,6 +53,8 @@ def register(PROPS):
             D('c07_tz', ['mode=byhour', 'tier=quick'] + _T, ['mode=byhour', 'tier=thorough', 'y0=1903'] + _T, label='byhour'),
             D('c07_tz', ['mode=byhour', 'tier=quick', 'ystep=4'] + _T, label='byhour-asan', variant='asan'),
             D('c07_tz', ['mode=transient'] + _T, label='transient-open-failure', shards=8),
+            D('c07_tz', ['mode=rewrite', 'tier=quick'] + _T, ['mode=rewrite', 'tier=thorough'] + _T, label='rewrite'),
+            D('c07_tz', ['mode=rewrite', 'tier=quick'] + _T, label='rewrite-asan', variant='asan', shards=8),
         ],
         'assumptions': [
             'the system time-zone database is the installed tree TZDIR (config.h, /usr/share/zoneinfo) without right/ and posix/; a zone is one '
@@ -62,6 +64,9 @@ def register(PROPS):
             'an instant is what the parser makes of YYYYMMDDTHHMMSS (second resolution); echs_tzob_offs takes a UTC instant',
             'a library call that uses more than 100 ms CPU is a hang (a conversion takes microseconds)',
             'mode transient: the only fault injected is EMFILE from open(2) through RLIMIT_NOFILE = 0 for the duration of one library call (resp. one parse + first pop); what that one call answers is not judged (the README says nothing about a zone that cannot be read), only that the failure is not remembered once the file can be opened; the 25 zones are those of the cache-order list that are off UTC and unambiguous at the three probe instants',
+            'mode rewrite: the writer is used as echsq and echsd use it (harness/ref/c05_common.h c05_seria) on a task none of whose occurrences has been consumed; what is judged is the re-read stream against zoneinfo, '
+            'not the written text (the writer puts a Z behind the local time of a zoned DTSTART; whether that is good iCalendar is not C07\'s matter as long as the project\'s own reader takes it for the local time); '
+            'events whose DTSTART lies in a gap or fold are left out, gap/fold occurrences inside an event are treated as in mode rule; field fidelity of the round trip is C05',
             'mode byhour takes only (zone, year) with UTC offset 0 at DTSTART (Europe/London, Lisbon, Dublin, Atlantic/Canary, Antarctica/Troll ... in winter): '
             'the rule parts are evaluated in the frame of DTSTART\'s offset, so only there does BYHOUR=h plainly mean h o\'clock on the zone\'s wall clock; '
             'the thorough tier goes back to 1903: with double summer time (offsets +1 <-> +2, neither the one at DTSTART) the tree is '
